@@ -42,13 +42,31 @@ def _path(n: int) -> str:
     return _FILES[n]
 
 
+class ProducerStuck(Exception):
+    pass
+
+
 def _serve(case):
     """-> (code, content-range|None, content-length|None, content-type|None, body) with the boundary rewritten to B"""
     from twisted.web import static
     from twisted.web.test.requesthelper import DummyRequest
 
+    limit = case["size"] // 4096 + 64
+
+    class Req(DummyRequest):
+        """DummyRequest's pull loop, bounded: a producer that never finishes is an observation, not a hang"""
+
+        def registerProducer(self, prod, s):
+            self.go = 1
+            n = 0
+            while self.go:
+                prod.resumeProducing()
+                n += 1
+                if n > limit:
+                    raise ProducerStuck()
+
     f = static.File(_path(case["size"]))
-    req = DummyRequest([b""])
+    req = Req([b""])
     req.method = b"HEAD" if case["head"] else b"GET"
     if case["range"] is not None:
         req.requestHeaders.addRawHeader(b"range", bytes.fromhex(case["range"]))
@@ -75,7 +93,7 @@ def _serve(case):
 def impl(case) -> str:
     try:
         code, cr, cl, ct, body = _serve(case)
-    except (OSError, ValueError, OverflowError) as e:
+    except (OSError, ValueError, OverflowError, ProducerStuck) as e:
         return "EXC:" + type(e).__name__
     h = lambda b: "-" if b is None else b.hex()
     return f"{code}|{h(cr)}|{h(cl)}|{h(ct)}|{digest(body)}#{body.hex() if len(body) <= 3000 else ''}"
@@ -268,7 +286,7 @@ def gen(rng, tier):
     # random range sets over a spread of sizes
     sizes = [0, 1, 2, 3, 9, 10, 11, 63, 64, 65, 255, 256, 1000]
     big = [4096, 65535, 65536, 65537, 70000, 131073]
-    n = 500 if tier == "quick" else 20000
+    n = 500 if tier == "quick" else 10000
     for i in range(n):
         size = rng.choice(sizes) if rng.random() < 0.8 else rng.randrange(0, 300)
         if rng.random() < (0.02 if tier == "quick" else 0.03):
@@ -286,6 +304,10 @@ def gen(rng, tier):
 
 
 def corpus():
+    # import the code under test outside the per-case time limit (slow on a busy machine)
+    import twisted.web.static  # noqa: F401
+    import twisted.web.test.requesthelper  # noqa: F401
+    _path(10)
     mk = lambda size, hdr, head=False: {"size": size, "head": head, "range": hdr.hex()}
     return [
         mk(10, b"bytes=-20"),            # F7 (DESIGN.md section 6): suffix longer than the file
@@ -329,11 +351,11 @@ SPEC = Spec(
     pid="C25",
     gen=gen, impl=impl, oracle=oracle, corpus=corpus, shrink=shrink, describe=describe, histogram=_hist,
     coq_header="From TwLib Require Import HttpRespBytes.\nFrom C25 Require Import Model Run.",
-    coq_fn="run_show", to_coq=to_coq, model_equal=model_equal,
+    coq_fn="run_show", to_coq=to_coq, model_equal=model_equal, case_timeout=10.0,
     nontrivial=lambda c, o: c["range"] is not None and not o.startswith("200"),
     rule="every single range-spec (first,last in 0..size+2, open, suffix 0..size+3) and a third (quick) / all (thorough) of "
          "their pairs with 5 second specs on files of 0..5 (thorough 0..8) bytes; 44 malformed / lenient header forms x 3 sizes; "
-         "500 (quick) / 20000 (thorough) random sets of 1-6 specs with positions at 0, size-1, size, size+1, 2*size, 10^20, optional "
+         "500 (quick) / 10000 (thorough) random sets of 1-6 specs with positions at 0, size-1, size, size+1, 2*size, 10^20, optional "
          "tolerated blanks, single-byte corruptions, sizes 0..1000 plus 4096 and 65535..131073 (producer buffer boundary; those are "
          "checked by the oracle only, the model is evaluated up to 3000 bytes); GET and HEAD; non-trivial = a Range header answered "
          "206/416/error; distinct by (case, observation)",
